@@ -37,7 +37,13 @@ def gen_box(rng, N, kind=None):
             lo, hi = [a[0] for a in pick], [a[1] for a in pick]
     elif kind == "far":
         # side small relative to the offset (|lower|/side up to 1e6, the limit stated in DESIGN.md section 4) or absolutely small
-        if rng.random() < 0.7:
+        v = rng.random()
+        if v < 0.25:
+            # a narrow window at a huge offset (a time stamp, a frequency): |lower|/side up to 1e10, still ~1e5 doubles across the side
+            side = 10 ** rng.uniform(-2, 1, N)
+            lo = fl(side * 10 ** rng.uniform(6, 10, N) * rng.choice([-1.0, 1.0], N))
+            hi = [l + float(s) for l, s in zip(lo, side)]
+        elif v < 0.7:
             side = 10 ** rng.uniform(-3, 1, N)
             lo = fl(side * 10 ** rng.uniform(3, 6, N) * rng.choice([-1.0, 1.0], N))
             hi = [l + float(s) for l, s in zip(lo, side)]
@@ -290,6 +296,9 @@ def gen_scenario(rng, dims=(1, 2, 3, 4, 5), fams=None, max_iters=600, refine=Non
     scn["params_how"] = "ctor" if u < 0.6 else ("assign" if u < 0.9 else "positional")
     u = rng.random()
     scn["m_type"] = "int" if u < 0.8 else ["np.int64", "np.int32", "np.intp", "np.uint8"][int(rng.integers(4))]
+    if rng.random() < 0.12:
+        lo_a, hi_a = np.array(lo, dtype=float), np.array(hi, dtype=float)
+        scn["start_point"] = fl(lo_a + rng.random(N) * (hi_a - lo_a))
     u = rng.random()
     scn["num_types"] = None if u < 0.75 else ["np", "py", "np"][int(rng.integers(3))]     # (float32 parameters are not used: the method then computes in float32)
     return scn
@@ -297,7 +306,7 @@ def gen_scenario(rng, dims=(1, 2, 3, 4, 5), fams=None, max_iters=600, refine=Non
 
 def short(scn):
     """Compact description for evidence samples."""
-    d = {k: scn[k] for k in ("N", "box", "r", "eps", "iters", "m", "refine", "holder", "params_how", "m_type", "num_types") if k in scn}
+    d = {k: scn[k] for k in ("N", "box", "r", "eps", "iters", "m", "refine", "holder", "params_how", "m_type", "num_types", "start_point") if k in scn}
     d["fam"] = scn["obj"]["fam"] if "obj" in scn else scn.get("bench")
     if "pattern" in scn:
         d["pattern"] = scn["pattern"]
